@@ -402,7 +402,7 @@ func (chs *ClientHelloSpec) ImportTLSClientHello(data map[string][]byte) error {
 						return errors.New("key_share must consist of (group, length) pairs of 4 bytes")
 					}
 					fixedData = append(fixedData, data["key_share"][i:i+4]...)
-					for j := 0; j < int(data["key_share"][i+3]); j++ {
+					for j := 0; j < int(data["key_share"][i+2])<<8|int(data["key_share"][i+3]); j++ {
 						fixedData = append(fixedData, 0)
 					}
 				}
